@@ -265,9 +265,9 @@ Section C02_system.
               forall x, In x I -> vpart P r p x = true.
   Hypothesis Hp : dom_p (c_period C).
   Hypothesis Hg : dom_g (c_genesis C).
-  Variable F : list Z.
-  Variable P t : Z.
-  Hypothesis F_small : Z.of_nat (length F) < t.
+  Variable thr_of : Z -> Z.       (* threshold of the sharing a public polynomial identifies (one per epoch) *)
+  Variable F_of : Z -> list Z.    (* the share indices of that sharing the adversary holds *)
+  Hypothesis F_small : forall P, Z.of_nat (length (F_of P)) < thr_of P.
   Variable gen : beacon.
   Hypothesis gen_round : b_round gen = 0.
   Hypothesis vrec_unique : forall r p s1 s2, vrec r p s1 = true -> vrec r p s2 = true -> s1 = s2.
@@ -276,13 +276,13 @@ Section C02_system.
      previous signature, signature) for every round both hold -- whatever the adversary delivered,
      injected or served to either of them. *)
   Theorem C02_system_agree : forall y0 gs,
-    sys_inv C idx_of vpart vrec F P t gen y0 ->
-    gadm_run C idx_of vpart recov vrec own_of F P t y0 gs ->
+    sys_inv C idx_of vpart vrec thr_of F_of gen y0 ->
+    gadm_run C idx_of vpart recov vrec own_of thr_of F_of y0 gs ->
     let y := grun C idx_of vpart recov vrec own_of y0 gs in
     forall s1 s2, In s1 (y_nodes y) -> In s2 (y_nodes y) ->
     forall b1 b2, In b1 (s_chain s1) -> In b2 (s_chain s2) -> b_round b1 = b_round b2 -> b1 = b2.
   Proof.
-    exact (run_agree C idx_of vpart recov vrec own_of vrec_unchained recov_sound Hp Hg F P t F_small gen gen_round vrec_unique).
+    exact (run_agree C idx_of vpart recov vrec own_of vrec_unchained recov_sound Hp Hg thr_of F_of F_small gen gen_round vrec_unique).
   Qed.
 End C02_system.
 Print Assumptions C02_system_agree.
